@@ -101,11 +101,25 @@ def conserve_violation(meta, model_out):
 # ---------------------------------------------------------------------------------------------
 # geometry (C03)
 
-def fit_items(page):
-    """(content-box bottom, [(bottom edge, first-on-page-or-column)]) for in-flow lines and table rows."""
+BIG = Fraction(10**12)
+
+
+def frac(value):
+    """Exact value of a float of the layout; a non-finite one becomes a huge number (so that it is reported as an
+    overflow instead of crashing the harness)."""
+    import math
+    if isinstance(value, float) and not math.isfinite(value):
+        return BIG
+    return Fraction(value)
+
+
+def fit_items(page, decorations=False):
+    """(content-box bottom, [(bottom edge, first-on-page-or-column)]) for in-flow lines and table rows; with
+    `decorations`, also one item per in-flow block box of automatic height that ends on this page (its own border-box
+    bottom: "a fragmented box's own bottom padding/border also fits"), exempt when it holds an exempt first item."""
     from weasyprint.formatting_structure import boxes
     pb = page._page_box
-    bottom = Fraction(pb.content_box_y()) + Fraction(pb.height)
+    bottom = frac(pb.content_box_y()) + frac(pb.height)
     items = []
     kinds = []
     fit_items.kinds = kinds
@@ -133,11 +147,18 @@ def fit_items(page):
             run_start = None
             if isinstance(child, (boxes.TableRowBox, boxes.LineBox)):
                 kinds.append('row' if isinstance(child, boxes.TableRowBox) else 'line')
-                items.append((Fraction(child.position_y) + Fraction(child.height), state['first']))
+                items.append((frac(child.position_y) + frac(child.height), state['first']))
                 state['first'] = False
                 placed[0] += 1
                 continue
+            was_first = state['first']
             walk(child, state)
+            if (decorations and isinstance(child, boxes.BlockBox) and not child.is_column
+                    and child.style['height'] == 'auto' and getattr(child.style['max_height'], 'value', None) == float('inf')
+                    and not isinstance(child, boxes.TableCellBox) and child.children
+                    and (child.padding_bottom or child.border_bottom_width)):
+                kinds.append('deco')
+                items.append((frac(child.border_box_y()) + frac(child.border_height()), was_first))
     walk(pb, {'first': True})
     return bottom, items
 
@@ -229,7 +250,7 @@ def family_cases(prop_id, rng=None, fraction=1.0):
         cases.append(('conserve', line, {'doc_id': doc_id, 'html': html, 'groups': groups, 'pages': pages,
                                          'features': ['family']}))
         for index, page in enumerate(document.pages):
-            bottom, items = fit_items(page)
+            bottom, items = fit_items(page, decorations=True)
             cases.append(('fits', sx.line('fits', bottom, [[b, f] for b, f in items]),
                           {'doc_id': f'{doc_id}#p{index}', 'html': html, 'page_index': index, 'bottom': str(bottom),
                            'items': [[str(b), f] for b, f in items], 'kinds': list(fit_items.kinds),
